@@ -40,6 +40,10 @@ pub enum PEv {
     /// (chaos scenarios) from now on the client's file lets ONE more write to the appointment tables through and refuses
     /// the next, as if the process had been killed between two durable writes of one logical step; lifted by the next restart
     KillAtSecondWrite,
+    /// (auto-retry scenarios) the tower, down with data pending, comes back; the moment it has acknowledged everything
+    /// that was pending (its retrier has just finished, the manager has not looked yet) it goes down again, a new
+    /// revocation arrives, and it comes back for good
+    NotifyJustAfterDelivery(u32, u32),
 }
 
 fn add_tok(m: &AddMode) -> &'static str {
@@ -103,6 +107,7 @@ impl PEv {
             PEv::KillAfter(ms) => format!("pl killafter {ms}"),
             PEv::Pause(ms) => format!("pl pause {ms}"),
             PEv::KillAtSecondWrite => "pl killatsecondwrite".into(),
+            PEv::NotifyJustAfterDelivery(t, l) => format!("pl notifyjustafterdelivery {t} {l}"),
         }
     }
 }
@@ -428,6 +433,38 @@ pub fn run_scenario(sc: &Scenario, idx: usize) -> Vec<Rec> {
                 }
                 r
             }
+            PEv::NotifyJustAfterDelivery(t, l) => {
+                for (x, tv) in prev.towers.iter() {
+                    if tv.status != "m" {
+                        g.due.insert((*x, *l));
+                    }
+                }
+                let want = w.towers[*t as usize].st.lock().unwrap().accepted.len() + prev.towers.get(t).map_or(0, |tv| tv.pending.len());
+                w.set_down(*t, false);
+                let t0 = Instant::now();
+                while w.towers[*t as usize].st.lock().unwrap().accepted.len() < want && t0.elapsed() < Duration::from_secs(20) {
+                    std::thread::sleep(Duration::from_millis(2));
+                }
+                if w.towers[*t as usize].st.lock().unwrap().accepted.len() < want {
+                    out.push(Rec::Count("note:just-after-delivery-missed".into()));
+                }
+                // the retrier marks the tower reachable, then itself finished
+                let t1 = Instant::now();
+                while t1.elapsed() < Duration::from_secs(3) {
+                    if w.plugin.call("listtowers", serde_json::json!([]), 5).ok().map_or(false, |v| v.to_string().contains("\"reachable\"")) {
+                        break;
+                    }
+                    std::thread::sleep(Duration::from_millis(3));
+                }
+                std::thread::sleep(Duration::from_millis(15));
+                w.set_down(*t, true);
+                let r = match w.notify(*l, 8) {
+                    Ok(_) => "ok".to_string(),
+                    Err(e) => err_class(&e),
+                };
+                w.set_down(*t, false);
+                r
+            }
             PEv::KillAfter(ms) => {
                 std::thread::sleep(Duration::from_millis(*ms as u64));
                 w.restart();
@@ -740,6 +777,9 @@ pub fn corpus() -> Vec<Scenario> {
         // a renewal whose (properly signed) receipt ends earlier than the subscription the client already holds
         sc("register-reply-with-a-lower-expiry", vec![Register(0), Register(1), PEv::Reg(0, RegMode::Accept), Register(0), PEv::Reg(0, RegMode::LowerExpiry), Register(0), Notify(0), Restart, PEv::Reg(0, RegMode::Accept), Register(0), Notify(1)]),
         sc("register-replies", vec![PEv::Reg(0, RegMode::BadSig), Register(0), PEv::Reg(0, RegMode::NonJson), Register(0), PEv::Reg(0, RegMode::ApiError), Register(0), PEv::Reg(0, RegMode::Accept), Register(0), PEv::Reg(0, RegMode::Same), Register(0), PEv::Reg(0, RegMode::SameExpiry), Register(0), Down(0, true), Register(0), Notify(0)]),
+        Scenario { name: "revocation-right-after-the-retrier-finished-a".into(), towers: 1, opts: (4, 3, 1), events: vec![Register(0), Down(0, true), Notify(0), PEv::NotifyJustAfterDelivery(0, 1), AwaitDelivered(0, 16)] },
+        Scenario { name: "revocation-right-after-the-retrier-finished-b".into(), towers: 1, opts: (4, 3, 1), events: vec![Register(0), Down(0, true), Notify(0), Notify(1), PEv::NotifyJustAfterDelivery(0, 2), AwaitDelivered(0, 16)] },
+        Scenario { name: "revocation-right-after-the-retrier-finished-c".into(), towers: 1, opts: (4, 3, 1), events: vec![Register(0), Down(0, true), Notify(0), PEv::NotifyJustAfterDelivery(0, 1), AwaitDelivered(0, 16), Down(0, true), Notify(2), PEv::NotifyJustAfterDelivery(0, 3), AwaitDelivered(0, 16)] },
         Scenario { name: "auto-retry-delivers".into(), towers: 1, opts: (2, 3, 1), events: vec![Register(0), Down(0, true), Notify(0), Notify(1), Down(0, false), AwaitDelivered(0, 14)] },
         // a revocation that arrives while the retrier idles is only in the file: the automatic wake-up must pick it up
         Scenario { name: "revocation-while-the-retrier-idles".into(), towers: 1, opts: (2, 4, 1), events: vec![Register(0), Down(0, true), Notify(0), AwaitStatus(0, "u", 12), Notify(1), Notify(2), Down(0, false), AwaitDelivered(0, 20)] },
